@@ -78,17 +78,20 @@ impl<T: Bounded> BVH<T> {
         // Nodos pendientes
         let mut pending: Vec<TreeElement<T>> = Vec::new();
         // Nodos procesados (2*n-1 nodos con n terminales)
-        let expected_num_nodes = if elements.is_empty() {
-            2 * (elements.len() / max_num_elements) - 1
-        } else {
-            0
-        };
+        let expected_num_nodes = 2 * (elements.len() / max_num_elements.max(1)) + 1;
         let mut node_list: Vec<TreeElement<T>> = Vec::with_capacity(expected_num_nodes);
 
         let mut id: NodeId = 0;
         let ll = elements.len();
         if ll > max_num_elements {
             let (left, right) = BVH::partition_elements_by_centroid(elements);
+            if left.is_empty() || right.is_empty() {
+                // Partición degenerada (centros coincidentes): un único nodo terminal
+                let mut all = left;
+                all.extend(right);
+                node_list.push(TreeElement(0, Leaf, L, None, Some(all)));
+                return node_list;
+            }
             // Guardamos nodo inicial (da igual el lado)
             node_list.push(TreeElement(0, Node, L, None, None));
             // Nodos pendientes
@@ -104,6 +107,19 @@ impl<T: Bounded> BVH<T> {
                 if cll > max_num_elements {
                     // Completamos un nodo intermedio y dejamos pendientes sus ramas
                     let (left, right) = BVH::partition_elements_by_centroid(c_elems);
+                    if left.is_empty() || right.is_empty() {
+                        // Partición degenerada (centros coincidentes): nodo terminal
+                        let mut all = left;
+                        all.extend(right);
+                        node_list.push(TreeElement(
+                            c_id,
+                            Leaf,
+                            c_side,
+                            c_maybe_parent_id,
+                            Some(all),
+                        ));
+                        continue;
+                    }
                     node_list.push(TreeElement(c_id, Node, c_side, c_maybe_parent_id, None));
                     pending.push(TreeElement(id + 2, Node, R, Some(c_id), Some(right)));
                     pending.push(TreeElement(id + 1, Node, L, Some(c_id), Some(left)));
@@ -135,6 +151,14 @@ impl<T: Bounded> BVH<T> {
         // Diccionario de nodos completos, listos para insertar en sus padres e indexados por padre
         // Al final del proceso contiene el nodo raíz
         let mut completed: BTreeMap<NodeId, BVHNode<T>> = BTreeMap::new();
+
+        // Árbol formado por un único nodo terminal
+        if node_list.len() == 1 {
+            if let Some(TreeElement(_, Leaf, _, _, Some(elements))) = node_list.pop() {
+                let aabb = elements.aabb();
+                return Self::new(Some(BVHNode::Leaf { aabb, elements }));
+            }
+        }
 
         // Vamos añadiendo los nodos que tenemos a sus elementos padre y
         // a medida que los completamos los añadimos a sus respectivos padres
